@@ -183,6 +183,13 @@ pub struct RecGen {
     pub utf8_id_pct: u64,
     /// probability (percent) that a record reuses the id of the record before it
     pub dup_id_pct: u64,
+    /// one run in `mega_1_in` (0 = never) is 2-5 records of 0.6-1.6 Mbases each (plus a few
+    /// short ones): rows, lines and per-record budgets of megabytes.  Only for pipelines
+    /// whose cost in scheduling points is per record, not per k-mer.
+    pub mega_1_in: u64,
+    /// one run in `twin_mega_1_in` (0 = never) is 2-3 copies of one record of 2^20 .. 1.15 M
+    /// bases: the counter's workers then walk the same k-mers at the same time
+    pub twin_mega_1_in: u64,
 }
 
 const ALPHAS: [Alpha; 7] = [
@@ -197,6 +204,25 @@ const ALPHAS: [Alpha; 7] = [
 
 impl RecGen {
     pub fn gen(&self, rng: &mut Rng) -> Vec<Rec> {
+        if self.mega_1_in > 0 && rng.chance(1, self.mega_1_in) {
+            let alpha = *rng.pick(&[Alpha::Clean, Alpha::Clean, Alpha::Mixed, Alpha::WithN]);
+            let mut out = Vec::new();
+            let big = rng.usize(2, 5);
+            let small = rng.usize(0, 3);
+            let mut kinds: Vec<bool> = (0..big).map(|_| true).chain((0..small).map(|_| false)).collect();
+            rng.shuffle(&mut kinds);
+            for (i, is_big) in kinds.into_iter().enumerate() {
+                let len = if is_big { rng.usize(600_000, 1_600_000) } else { rng.usize(0, 300) };
+                out.push(Rec { id: gen_id(rng, i), desc: gen_desc(rng), seq: gen_seq(rng, len, alpha) });
+            }
+            return out;
+        }
+        if self.twin_mega_1_in > 0 && rng.chance(1, self.twin_mega_1_in) {
+            let len = rng.usize(1 << 20, 1_150_000);
+            let seq = gen_seq(rng, len, Alpha::Clean);
+            let n = rng.usize(2, 3);
+            return (0..n).map(|i| Rec { id: gen_id(rng, i), desc: String::new(), seq: seq.clone() }).collect();
+        }
         // few records most of the time, sometimes many
         let n = if rng.chance(3, 4) {
             rng.usize(self.min_records, self.max_records.min(self.min_records + 7))
@@ -206,12 +232,24 @@ impl RecGen {
         // rare stratum: very many tiny records, to cross the 1 000-record buffer
         // capacity and the 10 000-record progress tick in the pipelines
         let many = self.max_records >= 16 && rng.chance(1, 1500);
+        // ... on a ladder: a little around 1 000, 10 000 and the powers of two up to 2^16
+        // and small multiples of them -- "exactly k blocks", "one more than fits", "the
+        // 65 537th record" are where block arithmetic goes wrong
         let n = if many {
-            if rng.chance(1, 2) {
-                rng.usize(1001, 1040)
-            } else {
-                rng.usize(10000, 10030)
-            }
+            const BASES: [usize; 9] = [1000, 1024, 2048, 4096, 8192, 10000, 16384, 32768, 65536];
+            let base = BASES[rng.weighted(&[12, 24, 12, 8, 7, 24, 5, 4, 4])];
+            let mult = match rng.below(10) {
+                0 | 1 => 2,
+                2 => 3,
+                _ => 1,
+            };
+            let centre = (base * mult).min(69_000);
+            let delta: i64 = match rng.below(10) {
+                0 | 1 => 0,
+                2..=6 => rng.range(0, 6) as i64 - 3,
+                _ => rng.range(1, 40) as i64,
+            };
+            (centre as i64 + delta).max(1) as usize
         } else {
             n
         };
